@@ -157,6 +157,13 @@ func checkC17(ctx *Ctx) {
 				continue
 			}
 			cases = append(cases, c17Case{N: n, Bytes: b, Max: 2*n + r.Intn(2), Linger: []string{"", "producer", "consumer"}[r.Intn(3)]})
+			if ctx.Thorough() {
+				// every linger variant, and producers with a second out-port
+				for _, lg := range []string{"", "producer", "consumer"} {
+					cases = append(cases, c17Case{N: n, Bytes: b, Max: 2 * n, Linger: lg})
+				}
+				cases = append(cases, c17Case{N: n, Bytes: b, Max: 3 * n, Multi: []string{"os+o", "os+os"}[r.Intn(2)]})
+			}
 		}
 	}
 	cases = append(cases, c17Case{N: 1, Bytes: 100, Max: 2, Linger: "producer"}, c17Case{N: 1, Bytes: 100, Max: 2, Linger: "consumer"}, c17Case{N: 2, Bytes: 70000, Max: 4, Rerun: true},
